@@ -593,6 +593,7 @@ func execDraw(line string) (res h.Result) {
 	lockEpoch := map[[2]int]int{}
 	lockLead := map[[2]int]bool{} // when it was locked the cell showed the left half of a wide glyph
 	lastDraw := false
+	oracleOnly := ""
 	tags := map[string]bool{}
 	// C13 "repainted by the first Show() after being unlocked": cells that were locked and have been unlocked since the
 	// last draw
@@ -915,6 +916,24 @@ func execDraw(line string) (res h.Result) {
 			noLink()
 			sh.trusted = false
 			tags["corrupt"] = true
+		case "ZR":
+			// Suspend(); Resume() — the terminal is handed back (modes reset, alternate screen left) and taken over again
+			// (alternate screen entered, cleared).  The library drops the logical content at Suspend (the cell buffer is
+			// resized to 0x0 and re-created at Resume from the tty's size): the application starts from a blank screen,
+			// and whatever it draws then must be what the terminal displays after the next Show (C01) — byte-exact
+			// correspondence for such histories is the business of engine `modes` (C04); here the oracle alone judges.
+			_ = scr.Suspend()
+			_ = scr.Resume()
+			record(tag, tty.TakeWrites())
+			sh.cells, sh.locked = map[[2]int]*drawCell{}, map[[2]int]bool{}
+			sh.w, sh.h = sh.ttyw, sh.ttyh
+			sh.trusted, sh.fresh = true, true
+			epoch++
+			markAllChanged()
+			pendingUnlock = map[[2]int]bool{}
+			lockSnap, lockEpoch, lockLead = map[[2]int]emuCell{}, map[[2]int]int{}, map[[2]int]bool{}
+			oracleOnly = "SKIP suspend/resume history: judged by the oracle only (byte-exact correspondence of such histories: engine modes)"
+			tags["suspend-resume"] = true
 		}
 	}
 	// ---- oracle on the emulator's view of what was written, before Fini ----
@@ -1108,6 +1127,9 @@ func execDraw(line string) (res h.Result) {
 	}
 	if !utf8loc {
 		res.Obs = "SKIP 8-bit locale: judged by the oracle only (the byte-level model is instantiated for UTF-8)"
+	}
+	if oracleOnly != "" {
+		res.Obs = oracleOnly
 	}
 	if staleVariant {
 		res.Obs = "SKIP line recorded on a tree of another variant (locked-neighbour guard / Fill width): judged by the oracle only"
@@ -1772,8 +1794,56 @@ func genDrawCornerCover(g *h.Gen) {
 	}
 }
 
+// genDrawSuspendResume: the display after a Suspend/Resume cycle (op ZR).  The library drops the logical content at Suspend;
+// what the application draws afterwards — the SAME content as before, other content, nothing — is what the terminal must show
+// after the next Show, at the same window size and after a quiet size change during the suspension.
+func genDrawSuspendResume(g *h.Gen) {
+	r := g.R
+	ents := []string{"xterm-256color", "linux", "vt100", "sun-color", "screen-256color", "xterm-kitty", "ansi", "vt220"}
+	sts := []string{"0,0,0,0,0,-,-", StyleF{Fg: uint64(tcell.PaletteColor(2)), Bg: uint64(tcell.PaletteColor(4))}.String(), StyleF{Fg: uint64(tcell.PaletteColor(3)), Attrs: 1}.String()}
+	cols := map[uint64]bool{uint64(tcell.PaletteColor(2)): true, uint64(tcell.PaletteColor(4)): true, uint64(tcell.PaletteColor(3)): true}
+	n := 0
+	for _, after := range []string{"same", "other", "nothing", "same-sync", "resized"} {
+		for _, name := range ents {
+			if terminfo.VerifEntries()[name] == nil {
+				continue
+			}
+			n++
+			w, hh := 5, 2
+			frame := func(shift int) []string {
+				return []string{drawStoreOp(0, 0, 0, 'a'+shift, nil, sts[1]), drawStoreOp(0, 2, 0, 0x4e16, nil, sts[2]), drawStoreOp(0, w-1, hh-1, 'z'-shift, nil, sts[0]),
+					drawStoreOp(0, 1, 1, 'q', []int{0x301}, sts[(1+shift)%3])}
+			}
+			ops := append([]string{}, frame(0)...)
+			ops = append(ops, "C 1 0", "W")
+			if after == "resized" {
+				ops = append(ops, "RQ 6 3")
+			}
+			ops = append(ops, "ZR")
+			switch after {
+			case "same", "resized":
+				ops = append(ops, frame(0)...)
+				ops = append(ops, "W")
+			case "other":
+				ops = append(ops, frame(1)...)
+				ops = append(ops, "W")
+			case "nothing":
+				ops = append(ops, "W")
+			case "same-sync":
+				ops = append(ops, frame(0)...)
+				ops = append(ops, "N")
+			}
+			ops = append(ops, "W")
+			ops = append(ops, fitOps(name, cols)...)
+			g.Emit("draw %s %d %d %d %s", withVariant(name), n%2, w, hh, strings.Join(ops, "; "))
+		}
+	}
+	_ = r
+}
+
 func genDraw(g *h.Gen) {
 	genDrawMatrix(g)
+	genDrawSuspendResume(g)
 	genDrawCornerCover(g)
 	genDrawRestoreIdentical(g)
 	genDrawRevisit(g)
@@ -1876,7 +1946,12 @@ func genDraw(g *h.Gen) {
 				w, hh = r.Range(2, 7), r.Range(1, 4)
 				ops = append(ops, fmt.Sprintf("RN %d %d", w, hh))
 			default:
-				ops = append(ops, "X")
+				if r.Chance(40) {
+					ops = append(ops, "ZR") // Suspend; Resume
+					lastLock = ""
+				} else {
+					ops = append(ops, "X")
+				}
 			}
 		}
 		ops = append(ops, h.Pick(r, []string{"W", "W", "W", "N"}))
